@@ -120,11 +120,11 @@ func (env *Env) callExpr(c *ast.CallExpr) Value {
 	case "bytes":
 		return Value{T: tString, S: env.x.bytesStr(env.s, env.hp, arg(0))}
 	case "visited":
-		it := env.loopIter()
-		if it == nil {
+		vis := env.loopVisited()
+		if vis == "" {
 			env.fail("visited(): no map iterator in this loop")
 		}
-		return Value{T: tBool, S: sel(it.visited, arg(0).S)}
+		return Value{T: tBool, S: sel(vis, arg(0).S)}
 	case "min":
 		a, b := arg(0), arg(1)
 		return Value{T: a.T, S: ite(app("<=", a.S, b.S), a.S, b.S)}
@@ -154,7 +154,7 @@ func (env *Env) callExpr(c *ast.CallExpr) Value {
 		return Value{T: tBool, S: app("fp.isNaN", arg(0).S)}
 	case "fp_of_int": // exact-if-representable rounding, same as the code's conversion
 		v := arg(0)
-		return Value{T: tFloat, S: app("(_ to_fp 11 53)", "RNE", app("(_ int2bv 64)", v.S))}
+		return Value{T: tFloat, S: env.x.intToFloat(env.s, v.S)}
 	case "fp_lt":
 		return Value{T: tBool, S: app("fp.lt", arg(0).S, arg(1).S)}
 	case "layerkey": // what Key.Layer hands to mast's default layer function: (dyn type tag, payload)
@@ -236,6 +236,25 @@ func (env *Env) applyUF(uf *UFunc, c *ast.CallExpr) Value {
 	sym := "uf_" + sanitize(uf.Name)
 	env.x.declareFun(sym, sorts, ls[0].Sort)
 	return Value{T: rt, S: app(sym, args...)}
+}
+
+func (env *Env) loopVisited() string {
+	if env.li == nil {
+		return ""
+	}
+	for _, in := range env.li.head.Instrs {
+		if nx, ok := in.(*ssa.Next); ok {
+			if env.iterSnap != nil {
+				if v, ok := env.iterSnap[nx.Iter]; ok {
+					return v
+				}
+			}
+			if it := env.s.iters[nx.Iter]; it != nil {
+				return it.visited
+			}
+		}
+	}
+	return ""
 }
 
 func (env *Env) loopIter() *iterState {
